@@ -12,6 +12,9 @@ RULE = ('engine histories (C01-C03 generator) on pty/fd transports driven from a
         'EOF/TIMEOUT outcomes) -- which is what "same answer as the blocking call" means once both are fed the same schedule; at '
         'a deadline tie either TIMEOUT (consuming nothing) or the match is accepted, never a TIMEOUT that consumed text. '
         'Oracle 2: an awaited call with finite timeout T ends by T + 0.5 virtual s. Scope ends at the first EOF. '
+        'Added later: awaited calls abandoned from outside (asyncio.wait_for around the call; a cancellation tie is judged as the '
+        'outcome the engine reached), attribute changes between calls, > 1024 descriptors with use_poll. Deliveries of the asyncio '
+        'protocol are recorded through the public logfile_read attribute. '
         'Non-trivial: >= 1 awaited call that consumed a read; distinct by trace digest')
 
 COMP = dict(COMPONENTS)
